@@ -4,7 +4,9 @@
 // Every case of the specification is instantiated as a REAL transaction: real keys, real signing hashes
 // (types.DefaultSigner / ReimbursementTxSigner / GasPayerSigner - every signature is made in the scheme, by the
 // key, on the content (before / after the change) its description names, whichever list it is then put into),
-// a gasPayer member that is absent / names the sender / names another account, real multi-signature accounts
+// a gasPayer member that is absent / names the sender / names another account, payer statements made over the
+// list of sender signatures the case names (the submitted one, a prefix, a re-ordering, the list of another
+// transaction), the transaction read from its RLP or from its JSON form, real multi-signature accounts
 // configured by real ModifySignersTx transactions, real boxes (whose JSON data an attacker may have re-written
 // after the box sender signed: other sub-transaction, forged / missing "hash" member).  Every behaviour runs on
 // its own pair of nodes; the block that funds and configures the sender account is stable on both (confirmed by
@@ -649,6 +651,10 @@ func (a *adapter) offer(c tla.Value) (engine.Fields, error) {
 	}
 	kind, f, gp0, gp, box, label := c.F("kind").S(), c.F("f").S(), c.F("gp0").S(), c.F("gp").S(), c.F("box").S(), c.F("label").S()
 	sigs, psigs := sigSpecs(c.F("sigs")), sigSpecs(c.F("psigs"))
+	over, via := ints(c.F("over")), c.F("via").S()
+	if via != "rlp" && via != "json" {
+		return nil, fmt.Errorf("unknown carrier %q", via)
+	}
 	if (f == "gasPayer") != (gp0 != gp) {
 		return nil, fmt.Errorf("case with f = %s, gasPayer %s -> %s", f, gp0, gp)
 	}
@@ -748,14 +754,32 @@ func (a *adapter) offer(c tla.Value) (engine.Fields, error) {
 		oldSigs = append([][]byte{signHash(schemeHash(sigs[0].sch, pick(sigs[0].old), nil), key(sigs[0]), 1-sigs[0].v)}, curSigs[1:]...)
 		origSigs = oldSigs
 	}
+	// the list of sender signatures the payer's holders had before them when they made their statement: the positions c.over of
+	// the list ss; 0: the sender signature of another transaction (other content, made by the key of the other account Q)
+	seen := func(ss [][]byte) [][]byte {
+		out := [][]byte{}
+		for j, t := range over {
+			switch {
+			case t == 0:
+				other := cur
+				other.from, other.message = a.payer2.addr, fmt.Sprintf("%s/other%d", cur.message, j)
+				out = append(out, signHash(schemeHash("reimb", other, nil), a.payer2.key, 0))
+			case t >= 1 && t <= len(ss):
+				out = append(out, ss[t-1])
+			default:
+				engine.Failf("case names sender signature %d of %d", t, len(ss))
+			}
+		}
+		return out
+	}
 	var curPSigs, origPSigs [][]byte
 	for _, sg := range psigs {
 		ss := curSigs
 		if sg.old {
 			ss = oldSigs
 		}
-		curPSigs = append(curPSigs, signHash(schemeHash(sg.sch, pick(sg.old), ss), key(sg), sg.v))
-		origPSigs = append(origPSigs, signHash(schemeHash(sg.sch, orig, origSigs), key(sg), sg.v))
+		curPSigs = append(curPSigs, signHash(schemeHash(sg.sch, pick(sg.old), seen(ss)), key(sg), sg.v))
+		origPSigs = append(origPSigs, signHash(schemeHash(sg.sch, orig, seen(origSigs)), key(sg), sg.v))
 	}
 	// ---- the properly signed twin of the submitted content: the holders of the sender account sign in the scheme of the form, the
 	// holders of the account the submitted gasPayer member makes pay sign the gas terms (reimbursed form) unless the sender pays in
@@ -812,17 +836,31 @@ func (a *adapter) offer(c tla.Value) (engine.Fields, error) {
 		}
 		return r.tx()
 	}
+	// carry: the transaction as the node reads it from the carrier the case names.  A JSON text the node's decoder refuses never
+	// gets further than the RPC (decodeErr; a dishonest deputy can still put the transaction into a block)
+	var decodeErr error
+	carry := func(x *types.Transaction) *types.Transaction {
+		if via == "json" {
+			y, err := viaJSON(x)
+			if err != nil {
+				decodeErr = err
+				return x
+			}
+			return y
+		}
+		return x
+	}
 	mk := func() (*types.Transaction, *types.Transaction) {
 		ct, tw := inner(cur, curSigs, curPSigs), inner(cur, twinSigs, twinPSigs)
 		switch box {
 		case "none":
-			return ct, tw
+			return carry(ct), tw
 		case "ok":
-			return wrap(ct, ct, a.wrapper.key, label), wrap(tw, tw, a.wrapper.key, "true")
+			return carry(wrap(ct, ct, a.wrapper.key, label)), wrap(tw, tw, a.wrapper.key, "true")
 		case "bad":
-			return wrap(ct, ct, a.foreign.key, label), wrap(tw, tw, a.wrapper.key, "true")
+			return carry(wrap(ct, ct, a.foreign.key, label)), wrap(tw, tw, a.wrapper.key, "true")
 		case "old": // the box sender signed before the change
-			return wrap(inner(orig, origSigs, origPSigs), ct, a.wrapper.key, label), wrap(tw, tw, a.wrapper.key, "true")
+			return carry(wrap(inner(orig, origSigs, origPSigs), ct, a.wrapper.key, label)), wrap(tw, tw, a.wrapper.key, "true")
 		}
 		engine.Failf("unknown box %q", box)
 		return nil, nil
@@ -841,6 +879,9 @@ func (a *adapter) offer(c tla.Value) (engine.Fields, error) {
 	// the check every real node applies to a transaction on arrival (api.go SendTx, protocol_manager.go handleTxsMsg);
 	// "now" is the parent block's time, so nothing depends on the wall clock
 	ierr := caseTx.VerifyTxBody(node.ChainID, uint64(pos.blk.Time()), false)
+	if decodeErr != nil {
+		ierr = decodeErr
+	}
 	var txs types.Transactions
 	if ierr == nil {
 		txs = types.Transactions{caseTx}
@@ -864,6 +905,33 @@ func (a *adapter) offer(c tla.Value) (engine.Fields, error) {
 		a.head = chainPos{blk, r}
 	}
 	return fl, nil
+}
+
+// viaJSON is tx as a node reads it from the JSON text an RPC client sends (tx_sendTx): every member as the node's own encoder
+// writes it, without the output-only "hash" member, a member whose value is null (an absent gasPayer / recipient) left out.
+func viaJSON(tx *types.Transaction) (*types.Transaction, error) {
+	text, err := json.Marshal(tx)
+	if err != nil {
+		engine.Failf("JSON form of a transaction: %v", err)
+	}
+	var m map[string]json.RawMessage
+	if err := json.Unmarshal(text, &m); err != nil {
+		engine.Failf("JSON form of a transaction: %v", err)
+	}
+	delete(m, "hash")
+	for k, v := range m {
+		if string(v) == "null" {
+			delete(m, k)
+		}
+	}
+	if text, err = json.Marshal(m); err != nil {
+		engine.Failf("JSON form of a transaction: %v", err)
+	}
+	out := new(types.Transaction)
+	if err := json.Unmarshal(text, out); err != nil {
+		return nil, err
+	}
+	return out, nil
 }
 
 // boxJSON is the box data carrying sub in the JSON form an attacker chooses: the "hash" member claims *claim (nil: no such
